@@ -570,7 +570,7 @@ func c09Eval(c *Ctx, cs Case) { historyShrunk(c, cs, "C09") }
 func c09Gen(c *Ctx) {
 	u := newC09Universe(c)
 	for i := 0; i < c.N(3000, 100000); i++ {
-		historyShrunk(c, genHistory(c, u, c.N(12, 40)), "C09")
+		historyShrunk(c, genHistory(c, u, c.P(12, 40)), "C09")
 		if c.NFailures() >= 8 {
 			break
 		}
